@@ -92,21 +92,34 @@ def run(tier, replay):
         ctx.violation("%d self-overlapping (pattern,text) pairs disagree with Match; first: %s" % (s["mismatches"], json.dumps(s["first"][:3], ensure_ascii=False)),
                       {"kind": "glob-kmp", "cfg": kcfg, "first": s["first"]})
 
-    # 3. random long pairs validated by TLC
+    # 3. random long pairs validated by TLC; 3b. long adversarial pairs (self-overlapping literal after a star against a
+    #    run of 80..400 symbols: work = text length x literal length), added after a seeded linear "work budget" was missed
     n = 20000 if thorough else 3000
-    p = run_bin(glob, ["random", str(n), "40"])
-    if p.returncode != 0:
-        raise vlib.ToolError("glob random failed: " + p.stderr[-1000:])
-    tr = os.path.join(vlib.workdir("C05"), "random.ndjson")
-    with open(tr, "w") as f:
-        f.write(p.stdout)
-    t = run_tlc("Trace_Glob.tla", "Trace_Glob.cfg", D, workers=1, env={"TRACE": tr}, timeout=900, work_id="c05", deque=True)
-    ctx.add_tlc("trace validation of %d random pairs" % n, t)
-    ctx.cov["evaluations"] += n
-    ctx.cov["traces_validated_against_impl"] += n
-    if t.violation:
-        rej = t.prints[-1]["rejected"] if t.prints else []
-        ctx.violation("random pairs rejected by Trace_Glob; first: %s" % json.dumps(rej[:2]), {"kind": "glob-trace", "rejected": rej})
+    nl = 1500 if thorough else 200
+    tr = None
+    for fam, args, cnt in (("random", ["random", str(n), "40"], n), ("long", ["long", str(nl)], nl)):
+        p = run_bin(glob, args)
+        if p.returncode != 0:
+            raise vlib.ToolError("glob %s failed: %s" % (fam, p.stderr[-1000:]))
+        trf = os.path.join(vlib.workdir("C05"), fam + ".ndjson")
+        with open(trf, "w") as f:
+            f.write(p.stdout)
+        if fam == "random":
+            tr = trf
+        t = run_tlc("Trace_Glob.tla", "Trace_Glob.cfg", D, workers=1, env={"TRACE": trf}, timeout=900, work_id="c05", deque=True)
+        ctx.add_tlc("trace validation of %d %s pairs" % (cnt, fam), t)
+        ctx.cov["evaluations"] += cnt
+        ctx.cov["traces_validated_against_impl"] += cnt
+        if fam == "long":
+            recs = parse_jsonl(p.stdout)
+            ctx.add_part("long adversarial pairs", pairs=len(recs), matching=sum(1 for r in recs if r.get("got") is True),
+                         longest_text=max((len(r["t"]) for r in recs), default=0), longest_pattern=max((len(r["p"]) for r in recs), default=0))
+            ctx.cov["distinct_nontrivial"] += sum(1 for r in recs if r.get("got") is True)
+            if recs and not any(r.get("got") is True for r in recs) and not t.violation:
+                ctx.violation("none of the %d long adversarial pairs matched although two thirds are built to" % len(recs), {"kind": "glob-long-none"})
+        if t.violation:
+            rej = t.prints[-1]["rejected"] if t.prints else []
+            ctx.violation("%s pairs rejected by Trace_Glob; first: %s" % (fam, json.dumps(rej[:2])[:1500]), {"kind": "glob-trace", "family": fam, "rejected": rej})
     # 4. binding self-test (only on cleanly validated material): a vector with one matching text withdrawn must be
     #    flagged by the harness, and a log record with the answer flipped must be rejected by Trace_Glob
     if not ctx.violations and last_vec is not None:
